@@ -246,9 +246,6 @@ class Recognizer(IRecognizer):
                     message = '{}Expected a string matching {}'.format(
                         loc_str, type_to_desc(expected_type))
                     return set(), (message, [])
-                else:
-                    # don't read this as a bool but as a string
-                    node.tag = 'tag:yaml.org,2002:str'
             elif is_string_like(expected_type):
                 if (not isinstance(node, yaml.ScalarNode)
                         or node.tag != 'tag:yaml.org,2002:str'):
